@@ -14,6 +14,7 @@ generator's relative paths work and nothing can be written inside the repository
   reference  independent reference values: every documented module is executed statement by statement (evaluation
              switched off exactly around the statements the SPECIFICATION marks), members rendered with the real
              printers; plus the live objects of the normally imported module for the symbol tables.
+  rebuild    docs/build.py main() twice into a PRE-FILLED output directory (stale longer / shorter / empty / foreign pages)
   roles      symbols_role / quantity_notation_role.process_string on given strings (used to probe hash-seed dependence)
 """
 from __future__ import annotations
@@ -286,6 +287,46 @@ def mode_reference(spec, out):
     out["after"] = _probes()
 
 
+def mode_rebuild(spec, out):
+    """The output directory is NOT empty: every page name is pre-filled with a seeded variant (much longer junk, shorter
+    text, empty file, non-ASCII text, an unrelated valid page), then docs/build.py main() runs into it (pages + role step),
+    the result is copied, and main() runs a SECOND time into the same directory (now holding the longer role-resolved pages)."""
+    import random  # pylint: disable=import-outside-toplevel
+    import shutil  # pylint: disable=import-outside-toplevel
+    repo = Path(spec["repo"])
+    script = _load_build_script(repo)
+    _probes()
+    _probes()
+    rng = random.Random(spec["seed"])
+    gen = Path("gen")
+    gen.mkdir()
+    kinds = {}
+    for name in spec["pages"]:
+        k = rng.choice(["longer", "longer", "shorter", "empty", "nonascii", "other-page", "absent"])
+        kinds[name] = k
+        if k == "absent":
+            continue
+        text = {"longer": "STALE LINE OF A PREVIOUS BUILD\n" * rng.randrange(400, 900), "shorter": "x\n", "empty": "",
+            "nonascii": "\u00e9\u00e8 \u2192 stale \u03b1\u03b2\n" * rng.randrange(1, 500),
+            "other-page": "Other page\n==========\n\n.. py:currentmodule:: nothing\n" + "filler\n" * rng.randrange(0, 300)}[k]
+        (gen / name).write_text(text, encoding="utf-8")
+    out["prefill"] = {k: sum(1 for v in kinds.values() if v == k) for k in set(kinds.values())}
+    args = ["-R", "-q", "-l", "symplyphysics", "-g", "gen", "-c", str(repo / "docs")]
+    for run in (1, 2):
+        try:
+            script.main(args)
+            out[f"main{run}_ok"] = True
+        except BaseException as e:  # pylint: disable=broad-except
+            out[f"main{run}_ok"] = False
+            out[f"main{run}_error"] = f"{type(e).__name__}: {e}"
+            out[f"main{run}_traceback"] = traceback.format_exc()[-2000:]
+            break
+        if run == 1:
+            shutil.copytree("gen", "gen_after1")
+    out["kinds"] = kinds
+    out["after"] = _probes()
+
+
 def mode_roles(spec, out):
     from symplyphysics.docs import symbols_role, quantity_notation_role  # pylint: disable=import-outside-toplevel
     res = []
@@ -308,7 +349,7 @@ def main():
     try:
         import symplyphysics  # pylint: disable=import-outside-toplevel
         out["implementation"] = str(Path(symplyphysics.__file__).resolve())
-        {"full": mode_full, "order": mode_order, "reference": mode_reference, "roles": mode_roles}[mode](spec, out)
+        {"full": mode_full, "order": mode_order, "reference": mode_reference, "roles": mode_roles, "rebuild": mode_rebuild}[mode](spec, out)
         out["ok"] = True
     except BaseException as e:  # pylint: disable=broad-except
         out["ok"] = False
